@@ -9,9 +9,15 @@ def run(ctx):
                   "whenever has_net_changes() / has_incompatible_changes() hold abidiff's exit value carries the "
                   "CHANGE / INCOMPATIBLE bits on every path; removals feed has_incompatible_changes; the symbol re-lookup "
                   "that can cancel a removal only answers with the requested version")
-    ctx.rules = ["R-CATPART", "R-STATUS/abidiff", "R-ATOMS/removed", "R-VERLOOKUP"]
+    ctx.rules = ["R-CATPART", "R-STATUS/abidiff", "R-ATOMS/removed", "R-VERLOOKUP", "R-CTCANCEL", "R-CTPROP"]
     P = ctx.program(cr.UNITS)
     cr.check_catpart(ctx, P)
+    # a change can only be reported if the two versions of the type do not compare equal: the canonical type that a
+    # partial comparison tentatively propagates must not survive a difference found later (C20's propagation rules)
+    from rules import C20
+    Pir = ctx.program(C20.UNITS)
+    C20.check_ctcancel(ctx, Pir)
+    C20.check_ctprop(ctx, Pir)
     # exit code mapping of abidiff
     l1 = C08.check_atoms(ctx)
     Pt, I, main, rets = sr.analyse_tool(ctx, "abidiff", infeasible=C08.l1_prune if l1 else None)
